@@ -22,7 +22,8 @@ def gen(tier, rng, shard, nshards):
                "start": S.pick(rng, ["given", "given", "given", "default", "batched"]),
                "m": S.pick(rng, ["1", "2", "n//2", "n-1", "n", "n+3", "n+10", "default"]),
                "tol": float(S.pick(rng, [1e-12, 1e-12, 1e-8, 1e-5])), "fn": S.pick(rng, ["arnoldi", "arnoldi", "arnoldi", "arnoldi_eigs", "Arnoldi()"]),
-               "real_start": bool(rng.random() < 0.3), "wide_start": bool(rng.random() < 0.25), "opscale": float(S.pick(rng, [1.0, 1.0, 1.0, 1e-9, 1e9]))}
+               "real_start": bool(rng.random() < 0.3), "wide_start": bool(rng.random() < 0.25), "opscale": float(S.pick(rng, [1.0, 1.0, 1.0, 1e-9, 1e9])),
+               "vscale": float(S.pick(rng, [1.0, 1.0, 1.0, 1e-12, 1e-30, 1e-9, 1e15]))}
 
 
 def min_rel_residual(M, v, m):
@@ -151,6 +152,10 @@ def run_case(ctx, case):
     if np.linalg.cond(M) > 1e2:
         ctx.note("skipped_out_of_regime_cond")
         return
+    vs = float(case.get("vscale", 1.0))
+    if vs != 1.0:
+        b = (b * vs).astype(b.dtype)  # the factorisation depends on the direction of the start vector only, not on its length
+        ctx.count("start_vector_length", f"{vs:g}")
     m_req = {"1": 1, "2": 2, "n//2": max(1, n // 2), "n-1": max(1, n - 1), "n": n, "n+3": n + 3, "n+10": n + 10, "default": None}[case["m"]]
     ctx.begin_case(case, sig="|".join(f"{k}={case[k]}" for k in ("n", "dt", "normal", "rhs", "start", "m", "tol", "fn")), nontrivial=True)
     for key in ("rhs", "start", "m", "fn"):
@@ -170,6 +175,8 @@ def run_case(ctx, case):
         degree = None
     elif case["start"] == "batched":
         extra = (rng.standard_normal((n, 2)) + (1j * rng.standard_normal((n, 2)) if cplx else 0)).astype(M.dtype)
+        if vs != 1.0:
+            extra = (extra * np.array([1.0 / vs if 1e-15 < vs < 1e15 else 1.0, vs])[None, :]).astype(M.dtype)  # very different lengths in one batch
         v = np.concatenate([b.reshape(n, 1), extra], axis=1)
         kw["start_vector"] = v
     else:
